@@ -250,7 +250,7 @@ def run_cmd(cmd, cwd, log, cap, mem_gb=None, env=None):
     return rc, timed_out, time.time() - t0
 
 
-def kani_cmd(h, tdir, playback=False, extra=()):
+def kani_cmd(h, tdir, playback=False, extra=(), extra_cbmc=()):
     # --no-overflow-checks: drops CBMC's --nan-check (a NaN produced by float arithmetic is not a Rust panic; the
     # harnesses assert finiteness themselves). Rust's own overflow / division panics are MIR assertions and stay.
     cmd = ["cargo", "kani", "-p", h.crate, "-Z", "stubbing", "-Z", "unstable-options", "--no-overflow-checks",
@@ -268,6 +268,7 @@ def kani_cmd(h, tdir, playback=False, extra=()):
         cbmc_args += ["--max-field-sensitivity-array-size", str(fs)]
     if h.unwindset_resolved:
         cbmc_args += ["--unwindset", ",".join(h.unwindset_resolved)]
+    cbmc_args += list(extra_cbmc)
     if cbmc_args:
         cmd += ["--cbmc-args"] + cbmc_args
     return cmd
@@ -391,8 +392,8 @@ def resolve_unwindset(h, ovl, tdir, logdir):
     return out, None
 
 
-def run_harness(h, ovl, tdir, logdir, playback=False, cap_mult=1.0):
-    log = os.path.join(logdir, h.id + (".playback" if playback else "") + ".log")
+def run_harness(h, ovl, tdir, logdir, playback=False, cap_mult=1.0, extra_cbmc=(), tag=""):
+    log = os.path.join(logdir, h.id + (".playback" if playback else "") + tag + ".log")
     if h.unwindset and not h.unwindset_resolved:
         resolved, problem = resolve_unwindset(h, ovl, tdir, logdir)
         if problem:
@@ -402,7 +403,7 @@ def run_harness(h, ovl, tdir, logdir, playback=False, cap_mult=1.0):
         h.unwindset_resolved = resolved
     # the concrete-playback run keeps the whole trace and needs more memory than the deciding run
     mem = max(h.mem_gb, 56) if playback else h.mem_gb
-    rc, timed_out, wall = run_cmd(kani_cmd(h, tdir, playback), ovl, log, h.cap * cap_mult, mem)
+    rc, timed_out, wall = run_cmd(kani_cmd(h, tdir, playback, extra_cbmc=extra_cbmc), ovl, log, h.cap * cap_mult, mem)
     text = open(log, errors="replace").read()
     r = parse_log(text)
     r.update({"id": h.id, "rc": rc, "timed_out": timed_out, "wall_s": round(wall, 2), "log": log})
@@ -523,10 +524,57 @@ def cli_observe(ovl, jsonnet_src, logdir, tag):
             "stdout": p.stdout.decode("utf-8", "replace")[:2000], "stderr": p.stderr.decode("utf-8", "replace")[:2000]}
 
 
+def failed_property_ids(h, tdir, r):
+    """CBMC property ids (mangled) of the failed checks of result r, from `cbmc --show-properties` on the GOTO binary."""
+    import glob
+    cands = [f for f in glob.glob(os.path.join(tdir, "**", "out", "*%s.out" % h.id), recursive=True) if not f.endswith(".symtab.out")]
+    if not cands:
+        return []
+    gb = max(cands, key=os.path.getmtime)
+    try:
+        p = subprocess.run(["cbmc", "--show-properties", gb], capture_output=True, text=True, timeout=900)
+    except Exception:  # noqa
+        return []
+    props = re.findall(r"^Property (\S+):\n\s+file (\S+) line (\d+)[^\n]*\n\s+(.*)$", p.stdout, re.M)
+    out = []
+    for f in r["failed"]:
+        desc = f["description"]
+        ml = re.search(r":(\d+):\d+ in function", f["location"])
+        line = ml.group(1) if ml else None
+        for pid, pfile, pline, pdesc in props:
+            pd = pdesc.strip().strip('"')
+            if (pd == desc or pd == '"%s"' % desc or desc in pd) and (line is None or pline == line):
+                if pid not in out:
+                    out.append(pid)
+    return out
+
+
 def do_replay_for_failure(h, prop, ovl, tdir, logdir, r):
     """Re-run with concrete playback, run the counterexample natively; returns (replay_path, reproduced, info)."""
-    pr, ptext = run_harness(h, ovl, tdir, logdir, playback=True, cap_mult=4.0)
-    all_tests = [t for t in extract_playback_tests(ptext) if t["test_name"]]
+    heavy = r.get("sat_vars", 0) > 1500000
+    all_tests = []
+    pr = {"log": ""}
+    if not heavy:
+        pr, ptext = run_harness(h, ovl, tdir, logdir, playback=True, cap_mult=4.0)
+        all_tests = [t for t in extract_playback_tests(ptext) if t["test_name"]]
+    if not all_tests:
+        # The playback run checks ALL properties of the harness with traces kept and can need several times the memory of
+        # the deciding run (c05_escape_json_w1: > 56 GB). Second attempt: the same run restricted to the failed properties
+        # (`cbmc --property <id>`), whose ids are looked up in the harness's GOTO binary.
+        ids = failed_property_ids(h, tdir, r)
+        if ids:
+            # Kani drops `--slice-formula` for concrete playback (a sliced formula may leave inputs the failure does not
+            # depend on out of the trace); without it this harness's formula needs > 56 GB. It is put back for the
+            # restricted attempt: an input that is sliced away is one the failed assertion does not depend on, and the
+            # native run decides in the end whether the values printed reproduce the failure.
+            extra = ["--slice-formula"]
+            for i in ids[:4]:
+                extra += ["--property", i]
+            pr, ptext = run_harness(h, ovl, tdir, logdir, playback=True, cap_mult=4.0, extra_cbmc=extra, tag=".restricted")
+            all_tests = [t for t in extract_playback_tests(ptext) if t["test_name"]]
+        if not all_tests and heavy:
+            pr, ptext = run_harness(h, ovl, tdir, logdir, playback=True, cap_mult=4.0)
+            all_tests = [t for t in extract_playback_tests(ptext) if t["test_name"]]
     tests = [t for t in all_tests if t["check_kind"] != "cover"]
     if not tests:
         # Kani prints one unit test per DISTINCT vector of concrete values; when the failing path reads no symbolic value
@@ -745,7 +793,9 @@ def cmd_check(prop, tier, only, jobs, keep):
                 status, reason = classify(h, r)
                 if h.expect == "fail":
                     # vacuity twin: must come back FAILED on its final witness assertion only
-                    if status == "fail" and all("reachability witness" in x["description"] for x in r["failed"]):
+                    # the twin repeats the main harness's body: if the tree under test breaks the property it may fail the
+                    # shared assertion as well; that violation is reported (and replayed) through the main harness
+                    if status == "fail" and any("reachability witness" in x["description"] for x in r["failed"]):
                         status, reason = "witness-ok", ""
                     elif status == "pass":
                         status, reason = "inconclusive", "vacuity twin passed: the harness never reaches its final assertion"
